@@ -142,6 +142,9 @@ func RunProcessor(c *sim.Ctx) {
 			occ[e] = append(occ[e], bp{b.id, j})
 		}
 	}
+	slowHL := time.Duration(knob("slow_highest_lamport_ms", 0, 3)) * 5 * time.Millisecond // a slow application callback: lets Stop land inside the inserter
+	// (callbacks that the ordering buffer invokes under its mutex must not sleep: a goroutine blocked on a
+	// sync.Mutex is not durably blocked and the bubble's clock could not advance)
 	stopMode := knob("stop_mode", 0, 1) // 0 after quiescence, 1 at a drawn instant
 	stopAt := time.Duration(knob("stop_at_ms", 0, 1500)) * time.Millisecond
 	// the plan is the knob list; one op marks its end so that the trace is never empty
@@ -286,7 +289,14 @@ func RunProcessor(c *sim.Ctx) {
 					}()
 				},
 			},
-			HighestLamport: func() idx.Lamport { lastHL = highest(); return lastHL },
+			HighestLamport: func() idx.Lamport {
+				lastHL = highest()
+				v := lastHL
+				if slowHL > 0 {
+					time.Sleep(slowHL)
+				}
+				return v
+			},
 		})
 		proc.Start()
 
@@ -400,6 +410,10 @@ func RunProcessor(c *sim.Ctx) {
 						rec.violation("proc-release", "proc-release/refused-batch", "batch %d was refused (%v) but its event at position %d was released", b.id, b.enqErr, j)
 					}
 					continue
+				}
+				if b.touch[j] >= 0 && len(occ[b.events[j]]) == 1 && b.released[j] != 1 {
+					// the event went through the processor (it reached the ordering buffer or was released before it)
+					rec.violation("proc-release", "proc-release/handled-but-not-released", "event e%d of batch %d (position %d) was handled by the processor (it reached the ordering buffer) but was released %d times by the time Stop had returned and all workers had finished", b.events[j], b.id, j, b.released[j])
 				}
 				if b.doneAt >= 0 && b.released[j] != 1 {
 					rec.violation("proc-release", "proc-release/missing", "batch %d finished handling (done fired at %v) but its event e%d (position %d) was released %d times by the time Stop returned", b.id, b.doneAt, b.events[j], j, b.released[j])
